@@ -166,7 +166,7 @@ pub fn run_all(args: &Args) {
       out.count("file=named-twice");
     }
     // one to three files that end the run: unparsable, or not there at all; with several of them the one reported is
-    // the least path, whatever the schedule (repair 4da0839)
+    // the least path, whatever the schedule (repair 07a5560)
     let mut fatal_names: Vec<String> = vec![];
     if with_fatal {
       let k = if case_no % 10 == 1 { crng.range(2, 3) } else { crng.range(1, 3) };
